@@ -197,6 +197,21 @@ func solveAll(obls []*Obligation, dir string, jobs int, timeoutS int, thorough b
 					continue
 				}
 			}
+			// ground core: dropping quantified assumptions only weakens the hypotheses, so unsat here
+			//    is a proof; it is also much faster and immune to matching loops
+			if r.Status == "unknown" {
+				gf := strings.TrimSuffix(file, ".smt2") + ".g.smt2"
+				if err := os.WriteFile(gf, []byte(o.smtGround()), 0o644); err == nil {
+					st, _, el := runBackend(backends[0], gf, 3, false)
+					r.TimeS += el
+					os.Remove(gf)
+					if st == "unsat" {
+						r.Status, r.Backend = "unsat", backends[0].name+"(ground)"
+						r.Tried = append(r.Tried, fmt.Sprintf("%s-ground=unsat(%.2fs)", backends[0].name, el))
+						r.Output = ""
+					}
+				}
+			}
 			if r.Status == "unknown" && r.Output != "" && !strings.Contains(strings.Join(r.Tried, " "), "unknown") {
 				r.Status = "error"
 			}
